@@ -29,6 +29,7 @@ import dns.rdatatype
 import dns.rrset
 import dns.serial
 import dns.transaction
+import dns.update
 import dns.versioned
 import dns.xfr
 import dns.zone
@@ -670,17 +671,24 @@ def eval_mkq(ctx: Ctx, c: dict):
     if senc == "bad" and impl != "err:ValueError":
         ctx.fail("C13/make_query/non-int-serial", f"make_query(serial={ser!r}) -> {impl}, expected ValueError", rep)
     # extract_serial_from_query refuses what is not a query message
-    import dns.update
     try:
-        dns.xfr.extract_serial_from_query(dns.update.UpdateMessage(w.origin))
-        nimpl = "ok"
+        # (a plain Message that looks like an AXFR query, an UPDATE message, something that is no message at all)
+        nq = dns.message.Message(id=1)
+        nq.question = [dns.rrset.RRset(w.origin, IN, AXFR)]
+        for obj in (nq, dns.update.UpdateMessage(w.origin), "example."):
+            try:
+                dns.xfr.extract_serial_from_query(obj)
+                raise AssertionError("accepted " + type(obj).__name__)
+            except ValueError:
+                pass
+        raise ValueError("all three refused")
     except ValueError:
         nimpl = "err:ValueError"
     except BaseException as e:  # noqa: BLE001
         nimpl = "err:Foreign:" + type(e).__name__
     ctx.corr("c13.xs notquery none", nimpl, c)
     if nimpl != "err:ValueError":
-        ctx.fail("C13/extract_serial/not-a-query", f"extract_serial_from_query(UpdateMessage) -> {nimpl}, expected ValueError", rep)
+        ctx.fail("C13/extract_serial/not-a-query", f"extract_serial_from_query(non-query object) -> {nimpl}, expected ValueError", rep)
     if q is not None:
         try:
             x = dns.xfr.extract_serial_from_query(q)
@@ -1178,7 +1186,9 @@ def fault_cases(rng, st, every=True):
     # request faults: what Inbound.__init__ refuses
     cno = emit(recs, "init-zone-without-origin", "must-raise", "ValueError")
     if cno["zk"] != "btree":
-        yield dict(cno, no_origin=True, v0=[])
+        # (relativize=False: with relativize=True the effective origin of an origin-less zone is the empty name,
+        #  Inbound's check does not fire and the transfer fails later with KeyError — still an error, zone untouched)
+        yield dict(cno, no_origin=True, v0=[], rel=False)
     if rdtype == "AXFR":
         yield emit(recs, "init-axfr-over-udp", "must-raise", "ValueError", req={"udp": True})
     else:
